@@ -1278,7 +1278,21 @@ fn run_history(case: &Value) -> Value {
         });
     }
     let mut steps_out = Vec::new();
+    // posts[0] is the initial store, posts[k + 1] the store after step k
     let mut posts: Vec<Option<Store>> = Vec::new();
+    let initial_post = {
+        let f = read_files(&dir);
+        let p = Store::mock_acquire(&f[0], &f[1], &f[2], mock_today(), false).ok();
+        let j = p.as_ref().map(|p| {
+            json!({
+                "config": serde_json::to_value(&p.config).unwrap_or(Value::Null),
+                "audits": serde_json::to_value(&p.audits).unwrap_or(Value::Null),
+                "imports": serde_json::to_value(&p.imports).unwrap_or(Value::Null),
+            })
+        });
+        posts.push(p);
+        j
+    };
     for (k, step) in case["steps"].as_array().unwrap().iter().enumerate() {
         *cur_step.borrow_mut() = k;
         let mut args: Vec<String> = vec!["cargo".into(), "vet".into()];
@@ -1426,7 +1440,8 @@ fn run_history(case: &Value) -> Value {
         "criteria": it.criteria,
         "same_criteria": same_criteria,
     });
-    json!({"status": "ok", "steps": steps_out, "taps": taps, "post_stores": post_stores, "tables": tables})
+    json!({"status": "ok", "steps": steps_out, "taps": taps, "post_stores": post_stores, "tables": tables,
+           "initial_post": initial_post})
 }
 
 fn panic_message(p: &Box<dyn std::any::Any + Send>) -> String {
